@@ -124,3 +124,31 @@ let () =
           if V.same_url_shape vi vh then ok id "+same_url_shape"
           else specfail id ("data_of_a_later_iteration_changes_the_url_components" ^ (if sep <> "" then "\tfinding=D49" else ""))
         | _ -> specfail id "one_tag_one_attribute_expected")
+
+(* url_eff id <element> <attribute> <how> <t1> <t2> <cond> <value wire> <effective prefix> <template text> <outcome> <out>
+   (harness/cmd/run/c14.go): the static text before the action is put together by a branch or by a {{template}} call.
+   The specification is the one of the straight-line template with the effective prefix: when the engine accepts,
+   every clause of c14_verdict must hold for (effective prefix, data); it may refuse more than the straight-line
+   template (ambiguous prefixes), never less.  No model is involved. *)
+let () =
+  reg "url_eff" (fun f ->
+      let id = f.(1) in
+      let str i = string_of_bytes (bytes_of_hex f.(i)) in
+      let elem = str 2 and attr = str 3 in
+      let w = str 8 in
+      let p = bytes_of_hex f.(9) in
+      let outcome = f.(11) and out = bytes_of_hex f.(12) in
+      if outcome = "parseerr" then ok id "parse_error"
+      else begin
+        let v = value_of_wire w in
+        let data = V.stringify v in
+        let cls = V.url_class (lower elem) (lower attr) [] in
+        let accepted = (outcome = "ok" || outcome = "execerr") in
+        let fails = V.c14_verdict cls (lower elem) (lower attr) p data accepted (if outcome = "ok" then Some out else None) in
+        match List.filter (fun (_, d) -> int_of_n d = 0) fails with
+        | (cl, _) :: _ -> specfail id ("composed_prefix:" ^ clause_name cl)
+        | [] ->
+          (match fails with
+           | (cl, d) :: _ -> specfail id ("composed_prefix:" ^ clause_name cl ^ "\tfinding=D" ^ string_of_int (int_of_n d))
+           | [] -> ok id (if outcome = "ok" then "+composed_accepted" else if accepted then "+composed_rejected_at_execution" else "composed_refused"))
+      end)
